@@ -179,7 +179,7 @@ def is_scalar_ty(ty):
 # ---------------------------------------------------------------------------------------
 
 class Frame:
-    __slots__ = ('fn', 'body', 'locals', 'bb', 'genv', 'dest', 'ret_target', 'entered_loops', 'is_promoted', 'depth')
+    __slots__ = ('fn', 'body', 'locals', 'bb', 'genv', 'dest', 'ret_target', 'entered_loops', 'is_promoted', 'depth', 'loop_summaries')
 
     def __init__(self, fn, body, genv, depth):
         self.fn = fn
@@ -192,6 +192,7 @@ class Frame:
         self.entered_loops = set()
         self.is_promoted = False
         self.depth = depth
+        self.loop_summaries = {}   # loop head -> [(place json, term, ty)] applied when the loop is left
 
 
 class Obligation:
@@ -236,6 +237,7 @@ class State:
             nf.ret_target = f.ret_target
             nf.entered_loops = set(f.entered_loops)
             nf.is_promoted = f.is_promoted
+            nf.loop_summaries = dict(f.loop_summaries)
             s.frames.append(nf)
         s.ctx = self.ctx.copy()
         s.obligations = list(self.obligations)
@@ -246,6 +248,8 @@ class State:
         s.panic_info = None
         s.calls = list(self.calls)
         s.fresh = self.fresh
+        s.probe = getattr(self, 'probe', None)
+        s.last_iter_elem = getattr(self, 'last_iter_elem', None)
         return s
 
     def new_cell(self, v=None):
@@ -286,6 +290,7 @@ class Interp:
         self.unmodelled = set()
         self.models_used = set()
         self.fns_analysed = set()
+        self.fixpoint_depth = 0
         self.loop_hook = None       # callable(interp, st, frame, cfg, head): rule-specific loop-head abstraction
         self.invariants = {}        # adt path -> callable(st, StructV): constrain field ranges (type invariants)
 
@@ -559,7 +564,8 @@ class Interp:
                     else:
                         v = Opaque('?', 'arr-elem')
                 elif isinstance(arr, ContV):
-                    v = Num(t_app('elem', [arr.term, idx.term]), 'u8')
+                    from .models import _elem_value
+                    v = _elem_value(self, st, arr, idx.term)
                 else:
                     v = Opaque('?', 'index')
                 if n + 1 < len(ps):
@@ -939,8 +945,8 @@ class Interp:
             if op == 'Neg':
                 return Num(-a.term, a.ty)
             if op == 'PtrMetadata':
-                tgt = a
-                if isinstance(tgt, ContV):
+                tgt = self.deref(st, a) if isinstance(a, RefV) else a
+                if isinstance(tgt, ContV) and tgt.len is not None:
                     return Num(tgt.len, 'usize')
                 return self.opaque_result(st, {'k': 'uint', 'n': 'usize'}, 'ptrmeta')
             raise InterpError('unop %s' % op)
@@ -1064,6 +1070,10 @@ class Interp:
                     return None
             elif k == 'return':
                 rv = st.cells.get(fr.locals.get(0))
+                probe = getattr(st, 'probe', None)
+                if probe is not None and len(st.frames) - 1 == probe[0]:
+                    st.status = 'probe-exit'
+                    return None
                 st.frames.pop()
                 if not st.frames:
                     st.status = 'returned'
@@ -1104,12 +1114,20 @@ class Interp:
         if target is None:
             st.status = 'diverged'
             return 'stop'
+        probe = getattr(st, 'probe', None)
+        if probe is not None and len(st.frames) - 1 == probe[0] and fr is st.frames[probe[0]] and target not in probe[2]:
+            # range-inference probe: the path left the loop under analysis
+            st.status = 'probe-exit'
+            return 'stop'
         if not fr.is_promoted and fr.body is fr.fn:
             cfg = self.facts.cfg(fr.fn['path'])
             # leaving loops
             for h in list(fr.entered_loops):
                 if target not in cfg.loops[h]:
                     fr.entered_loops.discard(h)
+                    for pl, term, ty in fr.loop_summaries.pop(h, []):
+                        # recognised reduction: at loop exit the accumulator holds the fold over the whole sequence
+                        self.write_place(st, fr, pl, Num(term, ty))
             if target in cfg.loops:
                 if target in fr.entered_loops:
                     st.status = 'loopback'
@@ -1123,6 +1141,195 @@ class Interp:
         return None
 
     def havoc_loop(self, st, fr, cfg, head):
+        places = self.loop_places(st, fr, cfg, head)
+        info = self.loop_ranges(st, fr, cfg, head, places)
+        if info is not None and info.get('no_iteration'):
+            return    # no abstract iteration reaches the back edge: nothing assigned in the loop survives an iteration
+        if info is not None and info.get('reductions'):
+            fr.loop_summaries[head] = info['reductions']
+        self.apply_havoc(st, fr, head, places, info.get('ranges') if info else None)
+
+    def loop_ranges(self, st, fr, cfg, head, places):
+        """interval invariants of the integer places assigned in the loop: Kleene iteration with widening after three
+        rounds (R0 = range at loop entry, R(i+1) = hull(R(i), ranges at the back edges of one abstract iteration))"""
+        idx = []
+        for n, pl in enumerate(places):
+            try:
+                cont, k = self.resolve(st, fr, pl)
+            except InterpError:
+                continue
+            cur = cont[k] if (not isinstance(cont, dict) or k in cont) else None
+            if isinstance(cur, Num) and cur.ty in INT_RANGES:
+                idx.append(n)
+        if not idx or self.fixpoint_depth >= 2:
+            return None
+        cur = {}
+        for n in idx:
+            cont, k = self.resolve(st, fr, places[n])
+            cur[n] = st.ctx.rng(cont[k].term)
+        depth = len(st.frames) - 1
+        self.fixpoint_depth += 1
+        try:
+            for rounds in range(6):
+                s2 = st.fork()
+                f2 = s2.frames[depth]
+                sym_of = self.apply_havoc(s2, f2, head, places, cur)
+                f2.bb = head
+                f2.entered_loops.add(head)
+                s2.probe = (depth, head, frozenset(cfg.loops[head]))
+                s2.obligations = []
+                saved_stats = dict(self.stats)
+                try:
+                    outs = self.run(s2)
+                except InterpError:
+                    return None
+                finally:
+                    pass
+                new = dict(cur)
+                stable = True
+                for o in outs:
+                    if o.status != 'loopback' or len(o.state.frames) <= depth:
+                        continue
+                    fo = o.state.frames[depth]
+                    if fo.fn is not fr.fn:
+                        continue
+                    for n in idx:
+                        try:
+                            v = self.read_place(o.state, fo, places[n])
+                        except InterpError:
+                            continue
+                        if not isinstance(v, Num):
+                            continue
+                        lo, hi = o.ctx.rng(v.term)
+                        olo, ohi = new[n]
+                        nlo, nhi = min(lo, olo), max(hi, ohi)
+                        if (nlo, nhi) != (olo, ohi):
+                            stable = False
+                            if rounds >= 3:
+                                cont, k = self.resolve(st, fr, places[n])
+                                tlo, thi = INT_RANGES[cont[k].ty]
+                                nlo = Fr(tlo) if nlo < olo else nlo
+                                nhi = Fr(thi) if nhi > ohi else nhi
+                            new[n] = (nlo, nhi)
+                cur = new
+                if stable:
+                    backs = [o for o in outs if o.status == 'loopback' and len(o.state.frames) > depth and o.state.frames[depth].fn is fr.fn]
+                    info = {'ranges': cur, 'no_iteration': not backs, 'reductions': []}
+                    if backs:
+                        info['reductions'] = self.recognise_reductions(st, fr, places, idx, sym_of, backs, depth)
+                    return info
+            return None
+        finally:
+            self.fixpoint_depth -= 1
+
+    def recognise_reductions(self, st, fr, places, idx, sym_of, backs, depth):
+        """running maximum / minimum over an iterated sequence: at every back edge the accumulator is either unchanged
+        (and the element does not beat it) or the element (and the element beats it)"""
+        from .models import select_term
+        out = []
+        seqs = set()
+        for o in backs:
+            le = getattr(o.state, 'last_iter_elem', None)
+            if le is None:
+                return []
+            seqs.add(le[0])
+        if len(seqs) != 1:
+            return []
+        seq = next(iter(seqs))
+        seq_len = backs[0].state.last_iter_elem[2] if len(backs[0].state.last_iter_elem) > 2 else None
+        for n in idx:
+            a = sym_of.get(n)
+            if a is None:
+                continue
+            A = Poly.atom(a)
+            kind = None
+            ok = True
+            changed = False
+            for o in backs:
+                x = o.state.last_iter_elem[1]
+                if not isinstance(x, Num):
+                    ok = False
+                    break
+                X = x.term
+                try:
+                    v = self.read_place(o.state, o.state.frames[depth], places[n])
+                except InterpError:
+                    ok = False
+                    break
+                if not isinstance(v, Num):
+                    ok = False
+                    break
+                if v.term == A:
+                    # unchanged: element must not beat the accumulator
+                    ge = o.ctx.decide(cmp_term('Le', X, A)) is True
+                    le_ = o.ctx.decide(cmp_term('Ge', X, A)) is True
+                    k = 'max' if ge else ('min' if le_ else None)
+                    if ge and le_:
+                        k = kind or 'max'
+                elif v.term == X:
+                    changed = True
+                    gt = o.ctx.decide(cmp_term('Ge', X, A)) is True
+                    lt = o.ctx.decide(cmp_term('Le', X, A)) is True
+                    k = 'max' if gt else ('min' if lt else None)
+                    if gt and lt:
+                        k = kind or 'max'
+                else:
+                    ok = False
+                    break
+                if k is None or (kind is not None and k != kind):
+                    ok = False
+                    break
+                kind = k
+            if not ok or not changed or kind is None:
+                continue
+            # initial value and sequence: fold(init, seq)
+            cont, kk = self.resolve(st, fr, places[n])
+            init = cont[kk]
+            if not isinstance(init, Num):
+                continue
+            term = self.fold_term(kind, init.term, seq, st.ctx, seq_len)
+            if term is not None:
+                out.append((places[n], term, init.ty))
+        return out
+
+    def fold_term(self, kind, init, seq, ctx, seq_len=None):
+        """normal form of max/min(init, all elements of seq)"""
+        from .models import select_term
+        if seq_len is not None and isinstance(seq, tuple) and seq and seq[0] == 'from' and seq[2] == Poly.const(1):
+            from .models import elem_term
+            T = seq[1]
+            ln = seq_len + 1
+            if elem_term(T, ZERO, ln, ctx) == init:
+                return select_term(kind, T, ln, ctx)
+        # init = elem(T, 0), seq = from(T, 1)  ==>  max/min over T
+        if isinstance(seq, tuple) and seq and seq[0] == 'from' and seq[2] == Poly.const(1):
+            T = seq[1]
+            a = init.as_single_atom()
+            if a is not None and a[0] == 'app' and a[1] == 'elem' and a[2][0] == T and a[2][1] == ZERO:
+                ln = self._seq_len(T, ctx)
+                return select_term(kind, T, ln, ctx) if ln is not None else t_app(kind, [T])
+            if isinstance(T, tuple) and T and T[0] == 'push':
+                # elem(push(..), 0) may have been normalised to the pushed element or an element of the inner list
+                ln = self._seq_len(T, ctx)
+                if ln is not None:
+                    from .models import elem_term
+                    if elem_term(T, ZERO, ln, ctx) == init:
+                        return select_term(kind, T, ln, ctx)
+        inner = t_app(kind, [seq])
+        return (t_max if kind == 'max' else t_min)(init, inner, ctx)
+
+    def _seq_len(self, T, ctx):
+        n = 0
+        while isinstance(T, tuple) and T and T[0] == 'push':
+            n += 1
+            T = T[1]
+        if isinstance(T, tuple) and T and T[0] == 'sym':
+            return Poly.sym('len(%s)' % T[1]) + n
+        if T == ('new',) or T == ('clear',):
+            return Poly.const(n)
+        return None
+
+    def loop_places(self, st, fr, cfg, head):
         body_blocks = cfg.loops[head]
         places = []
         for b in sorted(body_blocks):
@@ -1139,11 +1346,18 @@ class Interp:
             if t['k'] == 'call':
                 places.append(t['dest'])
         seen = set()
+        out = []
         for pl in places:
             key = (pl['l'], tuple((p['k'], p.get('i'), p.get('v')) for p in pl['p']))
             if key in seen:
                 continue
             seen.add(key)
+            out.append(pl)
+        return out
+
+    def apply_havoc(self, st, fr, head, places, ranges=None):
+        sym_of = {}
+        for n, pl in enumerate(places):
             # only havoc places that currently hold a value (were initialised before the loop)
             try:
                 cont, k = self.resolve(st, fr, pl)
@@ -1152,7 +1366,15 @@ class Interp:
             cur = cont[k] if (not isinstance(cont, dict) or k in cont) else None
             if cur is None:
                 continue
-            cont[k] = self.havoc_value(st, cur, 'loop%d' % head)
+            nv = self.havoc_value(st, cur, 'loop%d' % head)
+            if isinstance(nv, Num):
+                a = nv.term.as_single_atom()
+                if a is not None:
+                    sym_of[n] = a
+                    if ranges is not None and n in ranges:
+                        st.ctx.ranges[a] = ranges[n]
+            cont[k] = nv
+        return sym_of
 
     def havoc_value(self, st, v, tag):
         if isinstance(v, Num):
@@ -1166,7 +1388,7 @@ class Interp:
             return Num(Poly.atom(a), v.ty)
         if isinstance(v, BoolV):
             return BoolV(B(('sym', st.fresh_name(tag))))
-        if isinstance(v, StructV) and v.path.endswith('ops::range::Range') and 'start' in v.names and 'end' in v.names:
+        if isinstance(v, StructV) and (v.path.endswith('ops::range::Range') or v.path.endswith('ops::range::RangeInclusive')) and 'start' in v.names and 'end' in v.names:
             # Range::next only ever increases `start` up to `end`
             s0, e0 = v.get('start'), v.get('end')
             if isinstance(s0, Num) and isinstance(e0, Num):
@@ -1175,7 +1397,7 @@ class Interp:
                 a = ('sym', st.fresh_name(tag + '.range_start'))
                 st.ctx.ranges[a] = (lo, hi)
                 st.ctx.int_atoms.add(a)
-                return StructV(v.path, v.names, [Num(Poly.atom(a), s0.ty) if n == 'start' else f for n, f in zip(v.names, v.fields)], v.targs)
+                return StructV(v.path, v.names, [Num(Poly.atom(a), s0.ty) if n == 'start' else (BoolV(B(('sym', st.fresh_name(tag + '.exhausted')))) if n == 'exhausted' else f) for n, f in zip(v.names, v.fields)], v.targs)
         if isinstance(v, StructV):
             return StructV(v.path, v.names, [self.havoc_value(st, f, tag) for f in v.fields], v.targs)
         if isinstance(v, TupleV):
@@ -1482,6 +1704,16 @@ class Interp:
         self.jump(st, fr, t['target'])
         return None
 
+    def call_fn_sync(self, st, path, args, genv=None):
+        """run a (straight-line, non-forking) function to completion on the same state; returns its value"""
+        fn = self.facts.fns.get(path)
+        if fn is None:
+            raise InterpError('function body not in facts: %s' % path)
+        sub = Frame(fn, fn, genv or {}, len(st.frames))
+        for i, a in enumerate(args):
+            sub.locals[i + 1] = st.new_cell(a)
+        return self._run_sync(st, sub)
+
     def call_closure(self, st, closure, args):
         """run a closure body to completion on the *same* state (no forking allowed inside);
         returns the return value.  Used by iterator models (for_each / retain)."""
@@ -1493,6 +1725,9 @@ class Interp:
         sub.locals[1] = st.new_cell(RefV(cl_cell, (), True))
         for i, a in enumerate(args):
             sub.locals[i + 2] = st.new_cell(a)
+        return self._run_sync(st, sub)
+
+    def _run_sync(self, st, sub):
         saved = st.frames
         st.frames = saved + [sub]
         try:
